@@ -411,7 +411,7 @@ class MinErrorFlow():
                 # (edge_subset are edges of the internal graph, while for node-weighted input corrected_graph is the
                 # condensed graph: the corrected values are read from self.edge_sol, filled in by get_solution() above)
                 ub_different_flow_values = len(set(
-                    self.edge_sol[(u, v)] if self.flow_attr in self.original_graph_copy[u][v] else 0
+                    self.edge_sol[(u, v)]
                     for (u, v) in edge_subset
                 ))
 
